@@ -5,6 +5,7 @@ import GrmVerif.Drive.C01
 import GrmVerif.Drive.C08
 import GrmVerif.Drive.C05
 import GrmVerif.Drive.C02
+import GrmVerif.Drive.C04
 import GrmVerif.Drive.C09
 import GrmVerif.Drive.C11
 import GrmVerif.Drive.C12
@@ -29,7 +30,7 @@ def dispatch (prop : String) (args : List Nat) : String :=
   | "C05" => C05.handle args
   | "C06" => C05.handle args
   | "C07" => C05.handle args
-  | "C04" => C01.handle args
+  | "C04" => C04.handle args
   | "C09" => C09.handle args
   | "C11" => C11.handle args
   | "C12" => C12.handle args
